@@ -41,6 +41,10 @@ func (*inArray) Exit(node *Node) {
 					}
 
 				string:
+					// Same for strings: keys of the map are strings.
+					if t == nil || t.Kind() != reflect.String {
+						return
+					}
 					for _, a := range array.Nodes {
 						if _, ok := a.(*StringNode); !ok {
 							return
